@@ -148,8 +148,25 @@ NOTES = {
  'C17-to-dyn-rc-unimplemented-in-alloc-only-build': 'rrtk built with alloc but without std: the two no_std copies of the to_dyn! helper "folded into one" that only knows the pointer variant - converting an Rc-backed Reference hits unimplemented!()',
  'C19-libm-with-micromath-uses-micromath-powf': 'no_std with libm AND micromath enabled: the power function is micromath\'s approximation instead of libm\'s',
  'C20-encoder-skips-equal-datum-signed-zero': 'encoder wrapper skips the write when the new datum == the held one: a reading that differs only in the sign of a zero is not relayed',
+ 'C03-latest-wrapping-comparison': 'the free function `latest()` orders stamps by the sign of a WRAPPING difference: picks the older datum when the two stamps are more than 2^63 ns apart',
+ 'C08-geartrain-fma-libm-arm-slip': 'gear-train projection through a new fused multiply-add helper whose libm-without-std arm adds the VELOCITY to the acceleration line (std and plain arms are right)',
+ 'C09-state-write-debug-assert-borrows-partner': 'a debug_assert! in the terminal\'s state write borrows the PARTNER: writing one end while the caller holds the other end\'s mutable guard panics (debug builds)',
+ 'C10-a2s-unit-check-in-debug-assert': 'AccelerationToState checks its input unit inside a debug_assert!: in a release build with dim_check_release (unit checking on, debug assertions off) wrong units are swallowed',
+ 'C11-non-finite-error-resets-controller': 'CommandPID resets itself when the error is not finite (overflowing difference, or a NaN / inf reading): a present sample yields no output and the warm-up starts over',
+ 'C13-axle-reads-own-slot-of-following-terminal': 'Axle takes the OWN slot instead of the command reading for terminals that follow a command getter: a newer command on that terminal\'s coupling is ignored',
+ 'C15-set-time-exclusive-clock-borrow': 'GetterFromHistory::set_time reads the clock through an exclusive borrow: panics if the caller still holds its own read-only view of the shared clock',
 }
 HISTORY = {
+ 'C08-geartrain-fma-libm-arm-slip': 'caught by C19/quick (the alloc + libm build diverges) but MISSED by C08: the property batches ran in the checked std build and the shipped release build only. Every simulator property now runs '
+   'its batch through two more simulators: rrtk as alloc + libm (no std), and rrtk as std + dim_check_release compiled without debug assertions. Caught by C08/quick since.',
+ 'C10-a2s-unit-check-in-debug-assert': 'MISSED at both tiers (C19 too): no build had unit checking ON and debug assertions OFF - the one documented configuration where the two disagree. `variants/stdrelease_dim` is that build (twelfth in '
+   'C19), and every property batch also runs through it; the wrong-unit samples of the C10 histories must panic there as in the checked debug build. Caught by C10/quick since.',
+ 'C09-state-write-debug-assert-borrows-partner': 'MISSED at both tiers: writes were only issued with nothing borrowed. Every state / command write to a linked terminal is now repeated while the caller holds the PARTNER\'s mutable guard '
+   '(a write needs only the written end). Caught at quick tier since (`C09|panic|write_while_partner_mutably_borrowed`).',
+ 'C11-non-finite-error-resets-controller': 'caught by C05/quick (bounded recovery of the command controller after a glitched reading, added the round before) but MISSED by C11: its histories had no non-finite readings. The 2 % glitched '
+   'readings (NaN, +-inf, usually in the controlled component) are now part of the C11 histories too; the model expects a present output there. Caught by C11/quick since.',
+ 'C15-set-time-exclusive-clock-borrow': 'MISSED at both tiers: the caller never looked at the shared clock itself during a call. Op HOLD: the harness keeps its own read-only view (shared borrow) of the clock alive across the read-only calls '
+   '(constructors, set_time, get, constant getter, motion-profile adapter). Caught at quick tier since (`C15|panic|HTIME`).',
  'C02-exponent-one-half-uses-sqrt': 'MISSED at both tiers, for two reasons: the exponent node\'s VALUE was not judged at all in the stream world (only category and stamp; values of the power function were left to C19\'s '
    'cross-build comparison, which cannot see a change that every build shares), and exponent 0.5 with a base of -0.0 / -inf was never drawn. In builds with std the model now expects `f32::powf` bit for bit, a fourth '
    'enumerated block runs the five binary f32 combinators over a 16 x 16 grid of landmark values (NaN, +-inf, +-MAX, +-0, subnormals, 0.5, 1, 2, 3, -1, ...), and random leaves draw such landmarks too. Caught at quick tier since.',
